@@ -230,6 +230,9 @@ func ApplyOp(doc *bson.D, op, path string, arg interface{}, upsert bool) error {
 		if Class(arg) != 2 {
 			return ErrInvalid
 		}
+		if _, isDec := arg.(primitive.Decimal128); isDec {
+			return ErrOutside // decimal arithmetic / re-encoding is outside the reference
+		}
 		if cur == Missing {
 			if op == "$inc" {
 				if f, ok := arg.(float64); ok && f == 0 && math.Signbit(f) {
@@ -339,6 +342,9 @@ func ApplyOp(doc *bson.D, op, path string, arg interface{}, upsert bool) error {
 		}
 		var a bson.A
 		if cur == Missing {
+			if len(vals) == 0 {
+				return ErrOutside // empty $each on a missing field: version dependent
+			}
 			a = bson.A{}
 		} else if ca, ok := cur.(bson.A); ok {
 			a = append(bson.A{}, ca...)
@@ -393,6 +399,9 @@ func ApplyOp(doc *bson.D, op, path string, arg interface{}, upsert bool) error {
 		}
 		var a bson.A
 		if cur == Missing {
+			if len(vals) == 0 {
+				return ErrOutside // empty $each on a missing field: version dependent
+			}
 			a = bson.A{}
 		} else if ca, ok := cur.(bson.A); ok {
 			a = append(bson.A{}, ca...)
@@ -510,6 +519,9 @@ func ApplyOp(doc *bson.D, op, path string, arg interface{}, upsert bool) error {
 			r = c ^ operand
 		default:
 			return ErrInvalid
+		}
+		if cur != Missing && r == c && op64 && !c64 {
+			return ErrOutside // value unchanged, only the width would change
 		}
 		if op64 || c64 {
 			return set(r)
